@@ -10,3 +10,6 @@ suites = W.suites
 classify = W.classify
 replay_case = W.replay_case
 extra_checks = W.extra_checks
+
+MANIFEST_ADD = {"text": "Add-on Props/C12_cfg.v: C12_entry_point_serves_user_value / C12_constructor_serves_user_value (every role the handlers read - context, framer, handler class, flags, identity - from every factory and constructor, with Python's `or` taken literally), C12_custom_functions_stay_local (custom functions are registered on the built server's decoder; both decoders build their lookup tables per instance), C12_entry_points_covered; python-side: two servers in one process, a custom function registered on one, its frame sent to the other (IllegalFunction, store untouched).",
+                "note": "Python's keyword binding, kwargs.pop and truthiness are hand-modelled in Wiring.v and tied by correspondence."}
